@@ -11,13 +11,18 @@
      has no unsafe code, no static, no thread-local (type-level witnesses + lint + census), and the only
      generator in sign is the per-call thread_rng() handle — so concurrent calls behave as their sequential
      selves.
-NOT decided (clause 1): that (s1, s2) produced by ffSampling lies on the coset and inside the ball for every
-key, message and sampler outcome."""
+ (1a) the algebra of clause 1: for EVERY output z of the sampler, sign's candidate is s = (t - z) B'' with
+     t = (c, 0) B''^-1 the very target handed to ffsampling, the rows of B'' lie in the lattice verify tests
+     against (h = g/f), B'' B''* is the Gram matrix the key's tree was built from, the norm that is compared
+     covers both components, and the emitted component is the one verify recomputes the other from;
+     verify recomputes ntt(c) - ntt(s2) ntt(h) exactly (rules/signalg.py: identity testing / residue classes);
+NOT decided (rest of clause 1): floating-point error, and that ffSampling's z is close enough to t for the
+candidate to be inside the ball (termination of the retry loop)."""
 from fv.absint import St, Pt, Ag, I, Sq, En, Md, Fl
 from fv.oracle import SPEC
 from fv.witness import run_witnesses
 from .common import Session
-from . import c02, c03, skeleton
+from . import c02, c03, skeleton, signalg
 
 LEVEL = "other"
 TECHNIQUE = "predicate agreement sign/verify, budget agreement, message-label flow, Send/Sync + no-unsafe/no-static witnesses"
@@ -31,7 +36,9 @@ def run(R):
     ctx, prog = S.ctx, S.prog
     R.trust("rustc type checker (Send/Sync, borrow rules), rustc unsafe_code lint", "rustc MIR (nightly)", "E0 fact extractor", "E2 abstract interpreter and models",
             "rand::ThreadRng contract")
-    R.assume("clause 1 (the signature vector lies on the coset and within the bound for every sampler outcome) is NOT decided")
+    R.assume("clause 1 is decided as exact algebra only (1a); floating-point error and termination of the retry loop are NOT decided")
+    signalg.clause_sign(R, "C01-coset")
+    signalg.clause_verify(R, "C01-verify-alg")
     for N in (512, 1024):
         spec = SPEC[N]
         inst = S.find(f"falcon::sign::<{N}>")
